@@ -275,7 +275,18 @@ def _callsite1d(cfg, B):
     model.namedBC = spy
     bcL = {'type': 'outsub_nrcbc', 'p': B.pos('pL', 0.2, 3.0)}
     bcR = {'type': 'outsub_rh', 'p': B.pos('pR', 0.2, 3.0)}
-    rhs = fd.modeldisc.fvm(model, mesh, fd.xnum.extrapol1(), numflux='hlle', bcL=bcL, bcR=bcR)
+    # a higher-order reconstruction: the interior state handed to the condition is the state extrapolated to the boundary face
+    spyface = {}
+    num = fd.xnum.extrapol3()
+    real_interp = num.interp_face
+
+    def interp(mesh_, data, grad):
+        L_, R_ = real_interp(mesh_, data, grad)
+        spyface['L'] = [x.copy() for x in L_]
+        spyface['R'] = [x.copy() for x in R_]
+        return L_, R_
+    num.interp_face = interp
+    rhs = fd.modeldisc.fvm(model, mesh, num, numflux='hlle', bcL=bcL, bcR=bcR)
     prim, cons = cm.make_state(B, 'euler1d', model, n)
     rhs.rhs(fd.field.fdata(model, mesh, cons))
     B.ob('two-boundary-calls', 'true', B.boolean(len(rec) == 2))
@@ -285,12 +296,12 @@ def _callsite1d(cfg, B):
     B.ob('left:type-and-dir', 'true', B.boolean(nL == 'outsub_nrcbc' and dL == -1 and pL_ is bcL), meta={'dir': dL})
     B.ob('right:type-and-dir', 'true', B.boolean(nR == 'outsub_rh' and dR == 1 and pR_ is bcR), meta={'dir': dR})
     for k in range(3):
-        B.ob('left:interior-state-is-first-cell[%d]' % k, 'eq', datL[k], prim[k][0])
-        B.ob('right:interior-state-is-last-cell[%d]' % k, 'eq', datR[k], prim[k][n - 1])
+        B.ob('left:interior-state-is-the-face-state-of-the-first-cell[%d]' % k, 'eq', datL[k], spyface['R'][k][0])
+        B.ob('right:interior-state-is-the-face-state-of-the-last-cell[%d]' % k, 'eq', datR[k], spyface['L'][k][n])
         B.ob('left:boundary-state-stored-on-the-outer-side[%d]' % k, 'eq', rhs.pL[k][0], outL[k])
         B.ob('right:boundary-state-stored-on-the-outer-side[%d]' % k, 'eq', rhs.pR[k][n], outR[k])
-        B.ob('left:interior-side-untouched[%d]' % k, 'eq', rhs.pR[k][0], prim[k][0])
-        B.ob('right:interior-side-untouched[%d]' % k, 'eq', rhs.pL[k][n], prim[k][n - 1])
+        B.ob('left:interior-side-untouched[%d]' % k, 'eq', rhs.pR[k][0], spyface['R'][k][0])
+        B.ob('right:interior-side-untouched[%d]' % k, 'eq', rhs.pL[k][n], spyface['L'][k][n])
 
 
 def _callsite2d(cfg, B):
